@@ -229,7 +229,7 @@ def _walk_defs(body):
 
 class Frame:
     __slots__ = ('env', 'parent', 'func', 'module', 'loop_counter', 'qualname', 'is_gen', 'gen_out',
-                 'self_cls', 'site_counts')
+                 'self_cls', 'site_counts', 'loop_assigned')
 
     def __init__(self, func, module, parent=None, qualname=None):
         self.env = {}
@@ -242,6 +242,7 @@ class Frame:
         self.gen_out = None
         self.self_cls = None
         self.site_counts = {}
+        self.loop_assigned = set()     # locals first assigned inside a loop that was cut by an invariant
 
     def lookup(self, name):
         f = self
@@ -802,10 +803,25 @@ class Engine:
             return fr.lookup(e.id)
         except KeyError:
             pass
+        if fr.func is not None and e.id in _local_names(fr.func):
+            # a local of this function that is not bound on this path
+            f = fr
+            while f is not None and f.func is fr.func:
+                if e.id in f.loop_assigned:
+                    raise Unsupported('%s is read after the loop that assigns it (bound iff the loop ran)' % e.id, e)
+                f = f.parent
+            self.throw('UnboundLocalError', origin='unbound local %s' % e.id)
         return self.module_lookup(fr.module, e.id, e)
 
     def e_JoinedStr(self, e, fr):
-        # f-strings: evaluate the pieces that are supported, result is an opaque fresh string
+        # f-strings: the embedded expressions are evaluated (they may raise, they may call); the text itself is an
+        # opaque fresh string
+        for part in e.values:
+            if isinstance(part, ast.FormattedValue):
+                try:
+                    self.eval(part.value, fr)
+                except Unsupported:
+                    pass
         return self.fresh_str('fstr')
 
     def e_Tuple(self, e, fr):
@@ -917,6 +933,13 @@ class Engine:
             return VStr(z3.Concat(a.t, b.t))
         if isinstance(a, VTuple) and isinstance(b, VTuple) and isinstance(op, ast.Add):
             return VTuple(a.items + b.items)
+        if isinstance(op, ast.Mult) and ((isinstance(a, VTuple) and isinstance(b, VInt)) or
+                                         (isinstance(a, VInt) and isinstance(b, VTuple))):
+            t, n = (a, b) if isinstance(a, VTuple) else (b, a)
+            c = _conc_int(n)
+            if c is None:
+                raise Unsupported('tuple repeated a symbolic number of times', node)
+            return VTuple(list(t.items) * max(c, 0))   # the SAME objects, c times over
         h = self.builtins.get('__binop__')
         if h is not None:
             r = h(self, op, a, b, node)
@@ -1623,6 +1646,9 @@ class Engine:
             raise Unsupported('concrete loop did not terminate', st)
         if hook is None:
             raise Unsupported('loop #%d of %s has no invariant' % (n, fr.qualname), st)
+        for name in _stored_names([st]):
+            if not fr.has(name):
+                fr.loop_assigned.add(name)
         hook(self, st, fr, kind, src)
 
     def _loop_ordinal(self, fr, st):
@@ -1686,6 +1712,59 @@ class Engine:
 
 
 # ------------------------------------------------------------------ small helpers
+def _stored_names(nodes):
+    """names bound by these statements in the enclosing function's scope (nested scopes excluded)"""
+    out = set()
+
+    def walk(n):
+        if isinstance(n, (ast.FunctionDef, ast.AsyncFunctionDef, ast.ClassDef)):
+            out.add(n.name)
+            return
+        if isinstance(n, ast.Lambda):
+            return
+        if isinstance(n, (ast.ListComp, ast.SetComp, ast.DictComp, ast.GeneratorExp)):
+            for x in ast.walk(n):
+                if isinstance(x, ast.NamedExpr):
+                    out.add(x.target.id)
+            return
+        if isinstance(n, ast.Name) and isinstance(n.ctx, (ast.Store, ast.Del)):
+            out.add(n.id)
+        elif isinstance(n, (ast.Import, ast.ImportFrom)):
+            for a in n.names:
+                out.add((a.asname or a.name).split('.')[0])
+        elif isinstance(n, ast.ExceptHandler) and n.name:
+            out.add(n.name)
+        for c in ast.iter_child_nodes(n):
+            walk(c)
+    for n in nodes:
+        walk(n)
+    return out
+
+
+_LOCALS = {}
+
+
+def _local_names(func):
+    """the names the compiler treats as locals of this function (parameters, anything stored; not global/nonlocal)"""
+    r = _LOCALS.get(id(func))
+    if r is None or r[0] is not func:
+        if not isinstance(func, (ast.FunctionDef, ast.AsyncFunctionDef)):
+            names = set()
+        else:
+            a = func.args
+            names = {x.arg for x in a.posonlyargs + a.args + a.kwonlyargs}
+            for x in (a.vararg, a.kwarg):
+                if x is not None:
+                    names.add(x.arg)
+            names |= _stored_names(func.body)
+            for n in ast.walk(func):
+                if isinstance(n, (ast.Global, ast.Nonlocal)):
+                    names -= set(n.names)
+        r = (func, names)
+        _LOCALS[id(func)] = r
+    return r[1]
+
+
 def _as_z3bool(x):
     return z3.BoolVal(x) if isinstance(x, bool) else x
 
